@@ -37,7 +37,7 @@ var kinds = map[string]string{
 	"s.Returns = promParser.ValueTypeVector":         "sort",
 	"s.Returns = promParser.ValueTypeScalar|s.IncludedLabels = nil|s.GuaranteedLabels = nil|s.FixedLabels = true|s.AlwaysReturns = true|s = excludeAllLabels(...)": "scalar",
 	"s.Returns = promParser.ValueTypeVector|s.IsDead = false|s.IsDeadReason = \"\"|s.AlwaysReturns = false|s.FixedLabels = true|s.IncludedLabels = nil|s.GuaranteedLabels = nil|" +
-		"for _, name := range labelsFromSelectors([]labels.MatchType{labels.MatchEqual}, s.Selector) { s = includeLabel(s, name) s = guaranteeLabel(s, name) }|s = excludeAllLabels(...)": "absent",
+		"for _, name := range absentLabels(n.Args[0]) { s = includeLabel(s, name) s = guaranteeLabel(s, name) }|s = excludeAllLabels(...)": "absent",
 	"s.Returns = promParser.ValueTypeVector|if len(s.Call.Args) == 0 { s.FixedLabels = true s.AlwaysReturns = true s.IncludedLabels = nil s.GuaranteedLabels = nil s = excludeAllLabels(...) } else { " + gsel + " }": "timelike",
 	"s.Returns = promParser.ValueTypeVector|s = guaranteeLabel(s, n.Args[1].(*promParser.StringLiteral).Val)": "arg1",
 	"s.Returns = promParser.ValueTypeVector|s.IncludedLabels = nil|s.GuaranteedLabels = nil|s.FixedLabels = true|s.AlwaysReturns = true|" +
@@ -101,6 +101,17 @@ func main() {
 	}
 	o.def("func_cases", "list (list string * string)", clist(rows))
 	o.json["func_cases"] = jrows
+
+	// absentLabels (fix 5b88941): the model's [absent_names] follows this exact body
+	af := findFunc(p, "", "absentLabels")
+	if af == nil {
+		fatal("absentLabels not found")
+	}
+	const absentLabelsBody = "var selector *promParser.VectorSelector|switch a := arg.(type) { case *promParser.VectorSelector: selector = a case *promParser.MatrixSelector: selector, _ = a.VectorSelector.(*promParser.VectorSelector) }|if selector == nil { return nil }|count := map[string]int{}|for _, lm := range selector.LabelMatchers { count[lm.Name]++ }|for _, lm := range selector.LabelMatchers { if lm.Name == labels.MetricName || lm.Type != labels.MatchEqual || lm.Value == \"\" || count[lm.Name] > 1 { continue } names = appendToSlice(names, lm.Name) }|return names"
+	if fp := bodyFingerprint(af.Body.List); fp != absentLabelsBody {
+		fatal("absentLabels has an unrecognised body: %s", fp)
+	}
+	o.json["absent_labels_body"] = "recognised"
 
 	// guaranteedLabelsMatches
 	gl := []string{}
